@@ -67,6 +67,7 @@ struct xshared {
   uint64_t table[STATE_SIZE];
 };
 
+extern const char *const vs_event_names[16];
 static struct xshared *X;
 static struct xitem *items;
 
@@ -786,9 +787,9 @@ main(int argc, char **argv)
     json_str(out, r.err_head);
     fputs(",\"note\":", out);
     json_str(out, vs_rec->note);
-    fputs(",\"events\":[", out);
-    for (i = 0; i < 16; i++) fprintf(out, "%s%u", i ? "," : "", vs_rec->ev_count[i]);
-    fputs("]", out);
+    fputs(",\"events\":{", out);
+    for (i = 0; i < 16; i++) fprintf(out, "%s\"%s\":%u", i ? "," : "", vs_event_names[i], vs_rec->ev_count[i]);
+    fputs("}", out);
     if (want_cps) { fputc(',', out); print_trace(out); }
     fputs("}\n", out);
     fclose(out);
@@ -797,7 +798,7 @@ main(int argc, char **argv)
 
   if (!strcmp(mode, "batch")) {
     /* ---- batch: many independent cases, canonical schedule each ---- */
-    struct brec { int kind, code; uint64_t out_len, out_hash, err_len, err_hash; unsigned inv, san, ncp; char head[96]; };
+    struct brec { int kind, code; uint64_t out_len, out_hash, err_len, err_hash; unsigned inv, san, ncp; unsigned ev[16]; char head[96]; };
     int fd = open(cases_file ? cases_file : "", O_RDONLY);
     struct stat st;
     unsigned char *cf;
@@ -875,6 +876,7 @@ main(int argc, char **argv)
           res[it].out_len = r.out_len; res[it].out_hash = r.out_hash;
           res[it].err_len = r.err_len; res[it].err_hash = r.err_hash;
           res[it].inv = vs_rec->inv_flags; res[it].san = r.sanitizer; res[it].ncp = vs_rec->ncp;
+          memcpy(res[it].ev, (void *)vs_rec->ev_count, sizeof res[it].ev);
           snprintf(res[it].head, sizeof res[it].head, "%s", r.err_head);
           if ((fl & 4) && outdir) {
             char path[4096];
@@ -902,10 +904,12 @@ main(int argc, char **argv)
     for (off = 0; off < ncases; off++) {
       char *nl;
       for (nl = res[off].head; *nl; nl++) if (*nl == '\n' || *nl == '\t') *nl = ' ';
-      fprintf(out, "%zu\t%s\t%d\t%llu\t%016llx\t%llu\t%016llx\t%u\t%u\t%u\t%s\n", off, kindname(res[off].kind),
+      fprintf(out, "%zu\t%s\t%d\t%llu\t%016llx\t%llu\t%016llx\t%u\t%u\t%u\t%s\t", off, kindname(res[off].kind),
               res[off].code, (unsigned long long)res[off].out_len, (unsigned long long)res[off].out_hash,
               (unsigned long long)res[off].err_len, (unsigned long long)res[off].err_hash,
               res[off].inv, res[off].san, res[off].ncp, res[off].head);
+      for (w = 0; w < 16; w++) fprintf(out, "%s%u", w ? "," : "", res[off].ev[w]);
+      fputc('\n', out);
     }
     fclose(out);
     return 0;
@@ -1026,9 +1030,9 @@ main(int argc, char **argv)
       fprintf(out, "%s%llu", i ? "," : "", (unsigned long long)X->exec_by_depth[i]);
     fputs("],\"cp_by_kind\":[", out);
     for (i = 0; i < 5; i++) fprintf(out, "%s%llu", i ? "," : "", (unsigned long long)X->cp_by_kind[i]);
-    fputs("],\"events\":[", out);
-    for (i = 0; i < 16; i++) fprintf(out, "%s%llu", i ? "," : "", (unsigned long long)X->ev_total[i]);
-    fprintf(out, "],\"classes_capped\":%s,\"classes\":[", X->ncls >= MAXCLS ? "true" : "false");
+    fputs("],\"events\":{", out);
+    for (i = 0; i < 16; i++) fprintf(out, "%s\"%s\":%llu", i ? "," : "", vs_event_names[i], (unsigned long long)X->ev_total[i]);
+    fprintf(out, "},\"classes_capped\":%s,\"classes\":[", X->ncls >= MAXCLS ? "true" : "false");
     for (i = 0; i < X->ncls; i++) {
       struct xclass *k = &X->cls[i];
       fprintf(out, "%s{\"kind\":\"%s\",\"code\":%d,\"stdout_len\":%llu,\"stdout_hash\":\"%016llx\","
